@@ -126,7 +126,7 @@ class VT(object):
 
 class Sched(object):
     def __init__(self, chooser, max_steps=20000, max_time=None, until=None,
-                 timer_deviations=True, trace=False):
+                 timer_deviations=True, trace=False, free_switch=True):
         self.chooser = chooser
         self.threads = []
         self.by_ident = {}
@@ -136,6 +136,10 @@ class Sched(object):
         self.max_time = max_time
         self.until = until
         self.timer_deviations = timer_deviations
+        # free_switch: choosing among enabled threads when the running one
+        # blocks costs nothing (CHESS); False: every departure from the
+        # default schedule costs one deviation
+        self.free_switch = free_switch
         self.aborting = False
         self.verdict = None          # None | 'deadlock' | 'horizon' | 'until'
         self.deadlock = None
@@ -222,8 +226,8 @@ class Sched(object):
             extra.sort(key=lambda t: (t.deadline, t.tid))
         opts = en + extra
         if len(opts) > 1 and not self.quiet:
-            costs = [0] + [1 if me_enabled else 0] * (len(en) - 1) \
-                + [1] * len(extra)
+            sw = 1 if (me_enabled or not self.free_switch) else 0
+            costs = [0] + [sw] * (len(en) - 1) + [1] * len(extra)
             idx = self.chooser.choose(len(opts), costs, 'sched',
                                       '%s:%s' % (kind, label))
         else:
